@@ -555,6 +555,150 @@ theorem get_lines_of_views (src₁ src₂ : List Char) (offs₁ offs₂ : List L
   obtain ⟨m₂, e₂⟩ := get_lines_lf src₂ offs₂ begin_ indent keep vs h₂
   exact ⟨_, m₁, m₂, e₁, e₂⟩
 
+/-! ### the mapping returned by `get_lines` (input to C05's `get_lines_faithful`) -/
+
+/-- the mapping `get_lines` builds for lines showing the views `ovs`, the first of them starting at
+    byte `outPos` of the content: per line one entry `(start in content, start in source)`, and a
+    second one `(start in content + virtual spaces, SAME source position)` when a tab was split -/
+def mapOf (indent : Nat) : Nat → List (LineOffset × (List Char × List Char × Int)) → List (Nat × Nat)
+  | _, [] => []
+  | outPos, (o, v) :: r =>
+    let c := calcRightWs v.1 (v.2.2 - usizeAsI32 indent)
+    ((outPos, o.lineStart + c.2) ::
+      (if c.1 > 0 then [(outPos + c.1, o.lineStart + c.2)] else []))
+    ++ mapOf indent (outPos + byteLen (viewPiece indent v) + 1) r
+
+/-- per line: the bytes copied from the source (everything after the virtual spaces) are the same
+    bytes in the content, at the positions the mapping names -/
+def Faithful (src content : List Char) (indent : Nat) :
+    Nat → List (LineOffset × (List Char × List Char × Int)) → Prop
+  | _, [] => True
+  | outPos, (o, v) :: r =>
+    let c := calcRightWs v.1 (v.2.2 - usizeAsI32 indent)
+    let t := dropB v.1 c.2 ++ v.2.1
+    slice src (o.lineStart + c.2) o.lineEnd = .ok t ∧
+    slice content (outPos + c.1) (outPos + c.1 + byteLen t) = .ok t ∧
+    Faithful src content indent (outPos + byteLen (viewPiece indent v) + 1) r
+
+theorem byteLen_replicate_space (n : Nat) : byteLen (List.replicate n ' ') = n := by
+  induction n with
+  | zero => rfl
+  | succ n ih => simp [List.replicate_succ, ih, show ' '.utf8Size = 1 by decide]; omega
+
+theorem byteLen_viewPiece (indent : Nat) (v : List Char × List Char × Int) :
+    byteLen (viewPiece indent v)
+      = (calcRightWs v.1 (v.2.2 - usizeAsI32 indent)).1
+        + byteLen (dropB v.1 (calcRightWs v.1 (v.2.2 - usizeAsI32 indent)).2 ++ v.2.1) := by
+  simp [viewPiece, byteLen_replicate_space]
+
+theorem getLinesGo_full (src : List Char) (offs : List LineOffset) (indent : Nat) (keep : Bool)
+    (ovs : List (LineOffset × (List Char × List Char × Int))) :
+    ∀ (line : Nat) (result : List Char) (mapping : List (Nat × Nat)),
+      (∀ j (h : j < ovs.length), offs[line + j]? = some ovs[j].1 ∧ Shows src ovs[j].1 ovs[j].2) →
+      getLinesGo src offs (line + ovs.length) indent keep line result mapping
+        = .ok (result ++ joinLines keep (ovs.map fun ov => viewPiece indent ov.2),
+               mapping ++ mapOf indent (byteLen result) ovs) := by
+  induction ovs with
+  | nil =>
+    intro line result mapping _
+    rw [getLinesGo]
+    simp [joinLines, mapOf]
+  | cons ov ovs' ih =>
+    intro line result mapping hv
+    obtain ⟨o, v⟩ := ov
+    obtain ⟨ho, hw, ht, hi⟩ := hv 0 (by simp)
+    simp only [Nat.add_zero, List.getElem_cons_zero] at ho hw ht hi
+    have hv' : ∀ j (h : j < ovs'.length),
+        offs[line + 1 + j]? = some ovs'[j].1 ∧ Shows src ovs'[j].1 ovs'[j].2 := by
+      intro j h
+      have := hv (j + 1) (by simp; omega)
+      simp only [List.getElem_cons_succ] at this
+      exact ⟨by rw [← this.1]; congr 1; omega, this.2⟩
+    rw [getLinesGo]
+    have hlt : line < line + ((o, v) :: ovs').length := by simp
+    simp only [hlt, if_true, ho]
+    unfold lineWs at hw
+    rw [hw]
+    simp only []
+    rw [hi, slice_from_view (by unfold lineWs; exact hw) ht]
+    simp only []
+    have hlen : line + ((o, v) :: ovs').length = line + 1 + ovs'.length := by simp; omega
+    rw [hlen]
+    have hbl := byteLen_viewPiece indent v
+    cases ovs' with
+    | nil =>
+      simp only [List.length_nil, Nat.add_zero] at ih ⊢
+      rw [ih (line + 1) _ _ hv']
+      cases keep <;> split <;>
+        simp [joinLines, viewPiece, mapOf, List.append_assoc, byteLen_replicate_space, *]
+    | cons ov2 ovs'' =>
+      rw [ih (line + 1) _ _ hv']
+      have h1 : (decide (line + 1 < line + 1 + (ov2 :: ovs'').length) || keep) = true := by simp
+      simp only [h1, if_true]
+      split <;>
+        simp [joinLines, viewPiece, mapOf, List.append_assoc, byteLen_replicate_space,
+          show '\n'.utf8Size = 1 by decide, Nat.add_assoc, *]
+
+theorem faithful_of_join (src : List Char) (indent : Nat) (keep : Bool)
+    (ovs : List (LineOffset × (List Char × List Char × Int)))
+    (hs : ∀ ov ∈ ovs, Shows src ov.1 ov.2) :
+    ∀ (pre : List Char),
+      Faithful src (pre ++ joinLines keep (ovs.map fun ov => viewPiece indent ov.2)) indent
+        (byteLen pre) ovs := by
+  induction ovs with
+  | nil => intro pre; trivial
+  | cons ov ovs' ih =>
+    intro pre
+    obtain ⟨o, v⟩ := ov
+    obtain ⟨hw, ht, hi⟩ := hs (o, v) (by simp)
+    have hs' : ∀ ov ∈ ovs', Shows src ov.1 ov.2 := fun ov h => hs ov (List.mem_cons_of_mem _ h)
+    simp only [Faithful]
+    refine ⟨?_, ?_, ?_⟩
+    · have := slice_from_view hw ht (v.2.2 - usizeAsI32 indent)
+      exact this
+    · cases ovs' with
+      | nil =>
+        refine slice_eq_ok_iff.mpr ⟨pre ++ List.replicate
+          (calcRightWs v.1 (v.2.2 - usizeAsI32 indent)).1 ' ', if keep then ['\n'] else [], ?_, ?_, rfl⟩
+        · cases keep <;> simp [joinLines, viewPiece, List.append_assoc]
+        · simp [byteLen_replicate_space]
+      | cons ov2 ovs'' =>
+        refine slice_eq_ok_iff.mpr ⟨pre ++ List.replicate
+          (calcRightWs v.1 (v.2.2 - usizeAsI32 indent)).1 ' ',
+          '\n' :: joinLines keep ((ov2 :: ovs'').map fun ov => viewPiece indent ov.2), ?_, ?_, rfl⟩
+        · simp [joinLines, viewPiece, List.append_assoc]
+        · simp [byteLen_replicate_space]
+    · cases ovs' with
+      | nil => trivial
+      | cons ov2 ovs'' =>
+        have := ih hs' (pre ++ viewPiece indent v ++ ['\n'])
+        simp only [byteLen_append, byteLen_cons, byteLen_nil,
+          show '\n'.utf8Size = 1 by decide] at this
+        simpa [joinLines, List.append_assoc] using this
+
+/-- `get_lines`, content AND mapping, for lines `begin ..` showing the views `ovs`; and every byte
+    copied from the source sits in the content where the mapping says (`Faithful`).  The first entry
+    of a line with a split tab maps the first VIRTUAL space to the same source byte as the text after
+    the spaces — the spaces have no bytes of their own in the source. -/
+theorem get_lines_faithful (src : List Char) (offs : List LineOffset) (begin_ indent : Nat)
+    (keep : Bool) (ovs : List (LineOffset × (List Char × List Char × Int)))
+    (hv : ∀ j (h : j < ovs.length), offs[begin_ + j]? = some ovs[j].1 ∧ Shows src ovs[j].1 ovs[j].2) :
+    ∃ content, getLines src offs begin_ (begin_ + ovs.length) indent keep
+        = .ok (content, mapOf indent 0 ovs) ∧
+      content = joinLines keep (ovs.map fun ov => viewPiece indent ov.2) ∧
+      Faithful src content indent 0 ovs := by
+  refine ⟨_, ?_, rfl, ?_⟩
+  · unfold getLines
+    rw [if_neg (by omega)]
+    have := getLinesGo_full src offs indent keep ovs begin_ [] [] hv
+    simpa using this
+  · have hs : ∀ ov ∈ ovs, Shows src ov.1 ov.2 := by
+      intro ov hov
+      obtain ⟨j, hj, rfl⟩ := List.getElem_of_mem hov
+      exact (hv j hj).2
+    have := faithful_of_join src indent keep ovs hs []
+    simpa using this
+
 theorem mem_joinLines {keep : Bool} {ps : List (List Char)} {c : Char} (h : c ∈ joinLines keep ps) :
     c = '\n' ∨ ∃ p ∈ ps, c ∈ p := by
   induction ps with
@@ -635,6 +779,25 @@ theorem get_lines_total (src : List Char) (offs : List LineOffset) (begin_ end_ 
   obtain ⟨m, hm⟩ := get_lines_lf src offs begin_ indent keep vs hvs
   rw [hvl, show begin_ + (end_ - begin_) = end_ by omega] at hm
   exact ⟨_, hm⟩
+
+/-- a table as the block-quote rule leaves it for `"> a\n>\tb"` (first_nonspace / indent_nonspace moved
+    behind the markers): the hypotheses of `get_lines_total` hold, the tab is split into two spaces -/
+example : getLines ['>', ' ', 'a', '\n', '>', '\t', 'b'] [⟨0, 3, 2, 2⟩, ⟨4, 7, 6, 4⟩] 0 2 2 false
+    = .ok (['a', '\n', ' ', ' ', 'b'], [(0, 2), (2, 6), (4, 6)]) := by decide +kernel
+example : ∃ r, getLines ['>', ' ', 'a', '\n', '>', '\t', 'b'] [⟨0, 3, 2, 2⟩, ⟨4, 7, 6, 4⟩] 0 2 2 false = .ok r :=
+  get_lines_total _ _ 0 2 2 false (by decide) (by decide) (by decide)
+/-- …and `get_lines` does panic on a table that breaks them (first_nonspace inside `é`) -/
+example : getLines ['é', 'a'] [⟨0, 3, 1, 0⟩] 0 1 0 false = .error .slice := by decide +kernel
+
+/-- `is_empty` is a function of the view: a line is empty iff its text is -/
+theorem is_empty_of_view {src : List Char} {o : LineOffset} {t : List Char}
+    (h : lineText src o = .ok t) : (o.firstNonspace ≥ o.lineEnd) ↔ t = [] := by
+  obtain ⟨p, q, _, _, hle⟩ := slice_eq_ok_iff.mp h
+  constructor
+  · intro hge
+    exact byteLen_eq_zero (by omega)
+  · rintro rfl
+    simp at hle; omega
 
 /-! ### …instantiated on the table of `generate_caches` -/
 
@@ -756,6 +919,14 @@ theorem get_lines_same_views (s₁ s₂ : List Char) (hviews : views s₁ = view
   rw [← vsOf_eq_of_views hviews] at e₂
   exact ⟨_, m₁, m₂, e₁, e₂⟩
 
+/-- `"a\n\tb"` versus `"a\r\n\tb"`: same content (mapping differs: the second line starts one byte
+    later) -/
+example :
+    getLines ['a', '\n', '\t', 'b'] (splitLines ['a', '\n', '\t', 'b']) 0 2 2 true
+      = .ok (['a', '\n', ' ', ' ', 'b', '\n'], [(0, 0), (2, 3), (4, 3)]) ∧
+    getLines ['a', '\r', '\n', '\t', 'b'] (splitLines ['a', '\r', '\n', '\t', 'b']) 0 2 2 true
+      = .ok (['a', '\n', ' ', ' ', 'b', '\n'], [(0, 0), (2, 4), (4, 4)]) := by decide +kernel
+
 /-- LF ↦ CR LF leaves every `get_lines` content unchanged -/
 theorem get_lines_crlf (src : List Char) (h : '\r' ∉ src) (begin_ end_ indent : Nat) (keep : Bool)
     (hbe : begin_ ≤ end_) (hlen : end_ ≤ (splitLines src).length) :
@@ -785,5 +956,352 @@ example : getLines ['-', ' ', 'a', '\n', '\n', ' ', '\t', 'b', '\n']
       (splitLines ['-', ' ', 'a', '\n', '\n', ' ', '\t', 'b', '\n']) 0 3 2 true
     = .ok (['-', ' ', 'a', '\n', '\n', ' ', ' ', 'b', '\n'], [(0, 0), (4, 4), (5, 7), (7, 7)]) := by
   decide +kernel
+
+/-! ## Helper facts about the indentation helpers (used by C05 / C06 / C11)
+
+  `indentWidth` / `widthFrom` count a tab up to the next multiple of 4 and EVERY other character as one
+  column — exactly what the two Rust helpers do (they accept any string); on the blank run of a line
+  this is the tab-expanded indent `indent_nonspace` (see `split_views`). -/
+
+theorem widthFrom_append (col : Nat) (a b : List Char) :
+    widthFrom col (a ++ b) = widthFrom (widthFrom col a) b := by
+  simp [widthFrom, List.foldl_append]
+
+theorem indentWidth_append (a b : List Char) :
+    indentWidth (a ++ b) = widthFrom (indentWidth a) b := widthFrom_append 0 a b
+
+theorem colStep_gt (col : Nat) (c : Char) : col < colStep col c := by
+  unfold colStep; split <;> omega
+
+theorem widthFrom_ge (col : Nat) (l : List Char) : col ≤ widthFrom col l := by
+  induction l generalizing col with
+  | nil => simp [widthFrom]
+  | cons c r ih =>
+    have h1 := colStep_gt col c
+    have h2 := ih (colStep col c)
+    simp only [widthFrom, List.foldl_cons] at h2 ⊢
+    omega
+
+/-- the tab-stop congruence: "characters since the last tab" ≡ column (mod 4) -/
+theorem countUntil_tab_mod (rev : List Char) :
+    countUntil '\t' rev % 4 = indentWidth rev.reverse % 4 := by
+  induction rev with
+  | nil => rfl
+  | cons c r ih =>
+    rw [List.reverse_cons, indentWidth_append]
+    simp only [countUntil, widthFrom, List.foldl_cons, List.foldl_nil, colStep]
+    split <;> omega
+
+theorem rfindAndCount_tab_mod (p : List Char) : rfindAndCount p '\t' % 4 = indentWidth p % 4 := by
+  unfold rfindAndCount
+  rw [countUntil_tab_mod, List.reverse_reverse]
+
+/-- `cut_zero`: a non-positive indent keeps nothing: `(0, |ws|)`. -/
+theorem cut_zero (ws : List Char) (indent : Int) (h : indent ≤ 0) :
+    calcRightWs ws indent = (0, byteLen ws) := by
+  unfold calcRightWs
+  cases ws.reverse with
+  | nil => simp [calcGo]; omega
+  | cons c r => simp only [calcGo]; rw [if_neg (by omega)]
+
+theorem calcGo_prefix (a : List Char) (rb : List Char) (start : Nat)
+    (hs : start = byteLen a + byteLen rb) :
+    calcGo ((widthFrom (indentWidth a) rb.reverse : Int) - (indentWidth a : Int)) start
+      (rb ++ a.reverse) = (0, byteLen a) := by
+  induction rb generalizing start with
+  | nil =>
+    simp only [List.reverse_nil, widthFrom, List.foldl_nil, Int.sub_self, List.nil_append]
+    subst hs
+    cases a.reverse with
+    | nil => simp [calcGo]
+    | cons c r => simp [calcGo]
+  | cons c rb' ih =>
+    have hcong : countUntil '\t' (rb' ++ a.reverse) % 4
+        = widthFrom (indentWidth a) rb'.reverse % 4 := by
+      have := countUntil_tab_mod (rb' ++ a.reverse)
+      rw [List.reverse_append, List.reverse_reverse, indentWidth_append] at this
+      exact this
+    have hge := widthFrom_ge (indentWidth a) rb'.reverse
+    have hih := ih (byteLen (rb' ++ a.reverse)) (by simp; omega)
+    rw [List.reverse_cons, widthFrom_append]
+    generalize widthFrom (indentWidth a) rb'.reverse = w' at *
+    simp only [widthFrom, List.foldl_cons, List.foldl_nil, List.cons_append, calcGo]
+    by_cases hc : c = '\t'
+    · subst hc
+      simp only [colStep, if_true]
+      rw [if_pos (by omega), hcong, if_neg (by omega)]
+      rw [← hih]
+      congr 1
+      omega
+    · simp only [colStep, if_neg hc]
+      rw [if_pos (by omega)]
+      rw [← hih]
+      congr 1
+      omega
+
+/-- `cut_prefix`: asking for exactly the columns that `b` occupies after `a` cuts exactly at the
+    boundary between `a` and `b` — no tab of `b` is ever split, wherever `a` ends. -/
+theorem cut_prefix (a b : List Char) :
+    calcRightWs (a ++ b) ((indentWidth (a ++ b) : Int) - (indentWidth a : Int)) = (0, byteLen a) := by
+  unfold calcRightWs
+  rw [indentWidth_append, List.reverse_append]
+  have := calcGo_prefix a b.reverse (byteLen (a ++ b)) (by simp)
+  rw [List.reverse_reverse] at this
+  exact this
+
+/-- `cut_full_indent`: asking for the whole tab-expanded width of a run keeps the whole run. -/
+theorem cut_full_indent (ws : List Char) : calcRightWs ws (indentWidth ws) = (0, 0) := by
+  have := cut_prefix [] ws
+  simpa [indentWidth, widthFrom] using this
+
+/-- `cut_four`: after four spaces, asking for `width − 4` columns keeps exactly what follows the four
+    spaces (tabs in it are never split: the prefix ends on a tab stop). -/
+theorem cut_four (w : List Char) :
+    calcRightWs ([' ', ' ', ' ', ' '] ++ w) ((indentWidth ([' ', ' ', ' ', ' '] ++ w) : Int) - 4) = (0, 4) := by
+  have := cut_prefix [' ', ' ', ' ', ' '] w
+  have h4 : indentWidth [' ', ' ', ' ', ' '] = 4 := by decide
+  have hb : byteLen [' ', ' ', ' ', ' '] = 4 := by decide
+  rw [h4, hb] at this
+  exact this
+
+theorem cut_four_text (w : List Char) :
+    cutRightWs ([' ', ' ', ' ', ' '] ++ w) ((indentWidth ([' ', ' ', ' ', ' '] ++ w) : Int) - 4) = .ok w := by
+  unfold cutRightWs
+  rw [cut_four]
+  have : dropBytes ([' ', ' ', ' ', ' '] ++ w) 4 = some w := by
+    have := dropBytes_append [' ', ' ', ' ', ' '] w
+    rwa [show byteLen [' ', ' ', ' ', ' '] = 4 by decide] at this
+  simp only [List.cons_append, List.nil_append] at this ⊢
+  rw [this]
+  simp
+
+/-- a different request does split a tab: one virtual space, cut after the first tab -/
+example : calcRightWs [' ', ' ', ' ', ' ', '\t', ' ', '\t'] 5 = (1, 5) := by decide
+example : indentWidth [' ', ' ', ' ', ' ', '\t', ' ', '\t'] = 12 := by decide
+example : calcRightWs [' ', ' ', ' ', ' ', '\t', ' ', '\t'] (12 - 4) = (0, 4) := cut_four ['\t', ' ', '\t']
+
+/-! ### `find_indent_of` -/
+
+theorem findIndentGo_spec (run : List Char) (hrun : AllBlank run) (rest : List Char)
+    (hrest : ∀ c r, rest = c :: r → ¬ (c = ' ' ∨ c = '\t')) :
+    ∀ (p : List Char) (ind : Nat),
+      findIndentGo (p ++ run ++ rest) ind (byteLen p) (run ++ rest)
+        = .ok (ind + (indentWidth (p ++ run) - indentWidth p), byteLen p + run.length) := by
+  induction run with
+  | nil =>
+    intro p ind
+    simp only [List.append_nil, List.nil_append, Nat.sub_self, Nat.add_zero, List.length_nil]
+    cases hr : rest with
+    | nil => simp [findIndentGo]
+    | cons c r =>
+      have := hrest c r hr
+      simp only [not_or] at this
+      simp [findIndentGo, this.1, this.2]
+  | cons c run' ih =>
+    intro p ind
+    have hline : p ++ c :: run' ++ rest = (p ++ [c]) ++ run' ++ rest := by simp
+    have hW : indentWidth (p ++ c :: run') = indentWidth ((p ++ [c]) ++ run') := by simp
+    have hge : indentWidth (p ++ [c]) ≤ indentWidth ((p ++ [c]) ++ run') := by
+      rw [indentWidth_append (p ++ [c])]; exact widthFrom_ge _ _
+    have hstep : indentWidth (p ++ [c]) = colStep (indentWidth p) c := by
+      rw [indentWidth_append]; rfl
+    have hc := hrun c (by simp)
+    have hsz : c.utf8Size = 1 := by rcases hc with rfl | rfl <;> decide
+    have hpos : byteLen (p ++ [c]) = byteLen p + 1 := by simp [hsz]
+    have hih := ih hrun.tail (p ++ [c])
+    rw [hpos, ← hline] at hih
+    simp only [List.cons_append, findIndentGo]
+    by_cases htab : c = '\t'
+    · subst htab
+      have hsl : slice (p ++ '\t' :: run' ++ rest) 0 (byteLen p) = .ok p :=
+        slice_eq_ok_iff.mpr ⟨[], '\t' :: run' ++ rest, by simp, rfl, by simp⟩
+      simp only [if_true]
+      rw [hsl]
+      simp only []
+      rw [hih, rfindAndCount_tab_mod, hW]
+      simp only [colStep, if_true] at hstep
+      simp only [List.length_cons]
+      congr 2 <;> omega
+    · have hsp : c = ' ' := by rcases hc with h | h; exact h; exact absurd h htab
+      subst hsp
+      simp only [if_neg htab, if_true]
+      rw [hih, hW]
+      simp only [colStep, if_neg htab] at hstep
+      simp only [List.length_cons]
+      congr 2 <;> omega
+
+/-- `find_indent_of` at a char boundary `|p|` of `p ++ run ++ rest`, where `run` is the maximal blank
+    run there: the indent is the column difference `width (p ++ run) − width p` (tabs expand relative
+    to the START OF THE LINE, whatever precedes them), the position is just after the run. -/
+theorem find_indent_spec (p run rest : List Char) (hrun : AllBlank run)
+    (hrest : ∀ c r, rest = c :: r → ¬ (c = ' ' ∨ c = '\t')) :
+    findIndentOf (p ++ run ++ rest) (byteLen p)
+      = .ok (indentWidth (p ++ run) - indentWidth p, byteLen p + run.length) := by
+  unfold findIndentOf
+  have : dropBytes (p ++ run ++ rest) (byteLen p) = some (run ++ rest) := by
+    rw [List.append_assoc]; exact dropBytes_append p _
+  rw [this]
+  have := findIndentGo_spec run hrun rest hrest p 0
+  simpa using this
+
+/-- every string decomposes at a boundary into (blank run, rest not starting with a blank) -/
+theorem blank_run_split (t : List Char) : ∃ run rest, t = run ++ rest ∧ AllBlank run ∧
+    ∀ c r, rest = c :: r → ¬ (c = ' ' ∨ c = '\t') := by
+  refine ⟨t.takeWhile isBlank, t.dropWhile isBlank, List.takeWhile_append_dropWhile.symm,
+    lead_allBlank t, ?_⟩
+  intro c r h hc
+  have := head_dropWhile h
+  rw [isBlank_iff.mpr hc] at this
+  cases this
+
+/-- `find_indent_total`: `find_indent_of` panics exactly when `pos` is not a char boundary of the
+    line (the re-slicing `&line[..pos]` inside the loop never panics). -/
+theorem find_indent_total (line : List Char) (pos : Nat) :
+    (∃ r, findIndentOf line pos = .ok r) ↔ onBoundary line pos = true := by
+  constructor
+  · rintro ⟨r, hr⟩
+    unfold findIndentOf at hr
+    unfold onBoundary
+    split at hr
+    · cases hr
+    · rename_i t ht; simp [ht]
+  · intro h
+    obtain ⟨p, t, rfl, rfl⟩ := onBoundary_iff.mp h
+    obtain ⟨run, rest, rfl, hrun, hrest⟩ := blank_run_split t
+    rw [← List.append_assoc]
+    exact ⟨_, find_indent_spec p run rest hrun hrest⟩
+
+/-- `find_indent_bounds`: the returned position is a char boundary with `pos ≤ pos' ≤ |line|`, and the
+    indent is between one and four columns per byte skipped. -/
+theorem find_indent_bounds (line : List Char) (pos ind pos' : Nat)
+    (h : findIndentOf line pos = .ok (ind, pos')) :
+    pos ≤ pos' ∧ pos' ≤ byteLen line ∧ onBoundary line pos' = true ∧
+      pos' - pos ≤ ind ∧ ind ≤ 4 * (pos' - pos) := by
+  have hb := (find_indent_total line pos).mp ⟨_, h⟩
+  obtain ⟨p, t, rfl, rfl⟩ := onBoundary_iff.mp hb
+  obtain ⟨run, rest, rfl, hrun, hrest⟩ := blank_run_split t
+  rw [← List.append_assoc, find_indent_spec p run rest hrun hrest] at h
+  simp only [Except.ok.injEq, Prod.mk.injEq] at h
+  obtain ⟨rfl, rfl⟩ := h
+  have hw : ∀ (l : List Char) (col : Nat), col + l.length ≤ widthFrom col l ∧
+      widthFrom col l ≤ col + 4 * l.length := by
+    intro l
+    induction l with
+    | nil => intro col; simp [widthFrom]
+    | cons c r ih =>
+      intro col
+      have := ih (colStep col c)
+      simp only [widthFrom, List.foldl_cons, List.length_cons] at this ⊢
+      have h1 : col + 1 ≤ colStep col c ∧ colStep col c ≤ col + 4 := by
+        unfold colStep; split <;> omega
+      omega
+  have := hw run (indentWidth p)
+  rw [indentWidth_append]
+  refine ⟨by omega, ?_, ?_, by omega, by omega⟩
+  · simp [hrun.byteLen] <;> omega
+  · exact onBoundary_iff.mpr ⟨p ++ run, rest, by simp, by simp [hrun.byteLen]⟩
+
+/-! ### The unit tests at the bottom of `utils.rs`, replayed on the model -/
+
+section unit_tests
+local notation "ok!" => Except.ok (ε := Panic)
+
+-- rfind_and_count_test
+example : rfindAndCount [] 'b' = 0 := by decide
+example : rfindAndCount ['a', 'b', 'c', 'd', 'e'] 'e' = 0 := by decide
+example : rfindAndCount ['a', 'b', 'c', 'd', 'e'] 'b' = 3 := by decide
+example : rfindAndCount ['a', 'b', 'c', 'd', 'e'] 'z' = 5 := by decide
+example : rfindAndCount ['a', 'b', 'c', 'ε', 'π'] 'b' = 3 := by decide
+-- find_indent_of_simple_test
+example : findIndentOf ['a'] 0 = ok! (0, 0) := by decide
+example : findIndentOf [' ', 'a'] 0 = ok! (1, 1) := by decide
+example : findIndentOf [' ', ' ', ' ', 'a'] 0 = ok! (3, 3) := by decide
+example : findIndentOf [' ', ' ', ' ', ' '] 0 = ok! (4, 4) := by decide
+example : findIndentOf ['\t', 'a'] 0 = ok! (4, 1) := by decide
+example : findIndentOf [' ', '\t', 'a'] 0 = ok! (4, 2) := by decide
+example : findIndentOf [' ', ' ', '\t', 'a'] 0 = ok! (4, 3) := by decide
+example : findIndentOf [' ', ' ', ' ', '\t', 'a'] 0 = ok! (4, 4) := by decide
+example : findIndentOf [' ', ' ', ' ', ' ', '\t', 'a'] 0 = ok! (8, 5) := by decide
+-- find_indent_of_with_offset
+example : findIndentOf [' ', ' ', ' ', 'a'] 2 = ok! (1, 3) := by decide
+example : findIndentOf [' ', ' ', ' ', ' ', 'a'] 2 = ok! (2, 4) := by decide
+example : findIndentOf [' ', ' ', '\t', 'a'] 2 = ok! (2, 3) := by decide
+example : findIndentOf [' ', ' ', ' ', '\t', 'a'] 2 = ok! (2, 4) := by decide
+example : findIndentOf [' ', ' ', ' ', ' ', '\t', 'a'] 2 = ok! (6, 5) := by decide
+example : findIndentOf [' ', ' ', ' ', ' ', ' ', '\t', 'a'] 2 = ok! (6, 6) := by decide
+-- find_indent_of_tabs_test
+example : findIndentOf [' ', ' ', '\t', ' ', '\t', 'a'] 1 = ok! (7, 5) := by decide
+example : findIndentOf [' ', ' ', '\t', ' ', '\t', 'a'] 2 = ok! (6, 5) := by decide
+example : findIndentOf [' ', ' ', '\t', ' ', '\t', 'a'] 3 = ok! (4, 5) := by decide
+example : findIndentOf [' ', ' ', '\t', ' ', '\t', 'a'] 4 = ok! (3, 5) := by decide
+-- off a boundary / beyond the end: panic
+example : findIndentOf ['é', ' '] 1 = .error .slice := by decide
+example : findIndentOf ['a'] 2 = .error .slice := by decide
+-- cut_ws_simple
+example : cutRightWs ['a', 'b', 'c'] (-1) = ok! [] := by decide
+example : cutRightWs ['a', 'b', 'c'] 0 = ok! [] := by decide
+example : cutRightWs ['a', 'b', 'c'] 1 = ok! ['c'] := by decide
+example : cutRightWs ['a', 'b', 'c'] 2 = ok! ['b', 'c'] := by decide
+example : cutRightWs ['a', 'b', 'c'] 3 = ok! ['a', 'b', 'c'] := by decide
+example : cutRightWs ['a', 'b', 'c'] 4 = ok! ['a', 'b', 'c'] := by decide
+-- cut_ws_unicode
+example : cutRightWs ['α', 'β', 'γ', 'δ'] 1 = ok! ['δ'] := by decide
+example : cutRightWs ['α', 'β', 'γ', 'δ', ' '] 3 = ok! ['γ', 'δ', ' '] := by decide
+-- cut_ws_expands_partial_tabs
+example : cutRightWs ['\t'] 1 = ok! [' '] := by decide
+example : cutRightWs ['\t'] 2 = ok! [' ', ' '] := by decide
+example : cutRightWs ['\t'] 3 = ok! [' ', ' ', ' '] := by decide
+example : cutRightWs ['\t', '\t', '\t'] 5 = ok! [' ', '\t'] := by decide
+example : cutRightWs ['\t', '\t', '\t'] 7 = ok! [' ', ' ', ' ', '\t'] := by decide
+-- cut_ws_retains_full_tabs
+example : cutRightWs ['\t', '\t', '\t'] 4 = ok! ['\t'] := by decide
+example : cutRightWs ['\t', '\t', '\t'] 8 = ok! ['\t', '\t'] := by decide
+-- cut_ws_proper_tabstops
+example : cutRightWs ['a', '\t'] 1 = ok! [' '] := by decide
+example : cutRightWs ['a', '\t'] 2 = ok! [' ', ' '] := by decide
+example : cutRightWs ['a', '\t'] 3 = ok! ['\t'] := by decide
+example : cutRightWs ['a', 'b', '\t'] 3 = ok! ['b', '\t'] := by decide
+example : cutRightWs ['a', 'b', 'c', '\t'] 3 = ok! ['b', 'c', '\t'] := by decide
+-- cut_ws_proper_tabstops_nested
+example : cutRightWs ['a', '\t', 'b', '\t'] 2 = ok! [' ', ' '] := by decide
+example : cutRightWs ['a', '\t', 'b', '\t'] 3 = ok! ['\t'] := by decide
+example : cutRightWs ['a', '\t', 'b', '\t'] 4 = ok! ['b', '\t'] := by decide
+example : cutRightWs ['a', '\t', 'b', '\t'] 5 = ok! [' ', 'b', '\t'] := by decide
+example : cutRightWs ['a', '\t', 'b', '\t'] 6 = ok! [' ', ' ', 'b', '\t'] := by decide
+example : cutRightWs ['a', '\t', 'b', '\t'] 7 = ok! ['\t', 'b', '\t'] := by decide
+example : cutRightWs ['a', '\t', 'b', '\t'] 8 = ok! ['a', '\t', 'b', '\t'] := by decide
+-- cut_ws_different_tabstops_nested  ("abc\tde\tf\tg")
+example : cutRightWs ['a', 'b', 'c', '\t', 'd', 'e', '\t', 'f', '\t', 'g'] 3 = ok! [' ', ' ', 'g'] := by decide
+example : cutRightWs ['a', 'b', 'c', '\t', 'd', 'e', '\t', 'f', '\t', 'g'] 4 = ok! ['\t', 'g'] := by decide
+example : cutRightWs ['a', 'b', 'c', '\t', 'd', 'e', '\t', 'f', '\t', 'g'] 5 = ok! ['f', '\t', 'g'] := by decide
+example : cutRightWs ['a', 'b', 'c', '\t', 'd', 'e', '\t', 'f', '\t', 'g'] 6 = ok! [' ', 'f', '\t', 'g'] := by decide
+example : cutRightWs ['a', 'b', 'c', '\t', 'd', 'e', '\t', 'f', '\t', 'g'] 7 = ok! ['\t', 'f', '\t', 'g'] := by decide
+example : cutRightWs ['a', 'b', 'c', '\t', 'd', 'e', '\t', 'f', '\t', 'g'] 9
+    = ok! ['d', 'e', '\t', 'f', '\t', 'g'] := by decide
+example : cutRightWs ['a', 'b', 'c', '\t', 'd', 'e', '\t', 'f', '\t', 'g'] 10
+    = ok! ['\t', 'd', 'e', '\t', 'f', '\t', 'g'] := by decide
+-- the doc-tests
+example : calcRightWs ['\t', '\t'] 6 = (2, 1) := by decide
+example : cutRightWs ['\t', '\t'] 6 = ok! [' ', ' ', '\t'] := by decide
+example : findIndentOf ['\t', 'f', 'o', 'o'] 0 = ok! (4, 1) := by decide
+end unit_tests
+
+/-
+OPEN: the composition over whole documents (Layer 3; DESIGN §9 C10 `render_le_invariant`).
+
+  theorem render_le_invariant (cfg : Cfg) (src : List Char) (h : '\r' ∉ src) :
+      render (parse cfg (lfToCrlf src)) = render (parse cfg src) ∧
+      render (parse cfg (lfToCr src))   = render (parse cfg src)
+  theorem render_final_newline (cfg : Cfg) (src : List Char)
+      (h : src.getLast? ≠ some '\n' ∧ src.getLast? ≠ some '\r') :
+      render (parse cfg (src ++ ['\n'])) = render (parse cfg src)
+
+  What is missing is the block-tokenizer model (`parse`) and the lemma `rules_read_views` (C06): every
+  block rule is a function of `views`, `isEmpty` (`is_empty_of_view`) and `getLines`.  Given that, the two
+  statements follow from `split_crlf` / `split_cr` / `split_final_newline` (equal views),
+  `get_lines_same_views` (equal node payloads) and `get_lines_split_no_cr` (no CR in any payload); source
+  ranges differ (byte shift), so with `sourcepos` the statement additionally needs line:column
+  invariance (C15).  Until then the composition is covered by the oracle `c10` of the harness.
+-/
 
 end MdIt.Lines
